@@ -152,15 +152,31 @@ end Autog
 
 namespace Autog
 
-/-- the ordering phase of the composed model keeps the node table -/
-theorem statEq_orderWMedianP (maxiter : Nat) (g g' : G) (h : (orderWMedianP maxiter g).map (·.1) = .ok g') : StatEq g g' := by
+/-- what a successful run of the ordering model returns -/
+theorem orderWMedianP_ok (maxiter : Nat) (g g2 : G) (x : Nat) (h : orderWMedianP maxiter g = .ok (g2, x)) :
+    ∃ g1, orderWMedian maxiter g = .ok (g1, x) ∧ sameLayers g.layers g1.layers = true ∧
+      g2 = { g with nodes := g.nodes.mapIdx fun i nd => { nd with pos := (g1.node i).pos }, layers := g1.layers } := by
   unfold orderWMedianP at h
   cases ho : orderWMedian maxiter g with
-  | error e => simp [ho, bind, Except.bind, Except.map] at h
+  | error e => simp [ho, bind, Except.bind] at h
   | ok r =>
-    obtain ⟨g1, x⟩ := r
-    simp only [ho, bind, Except.bind, pure, Except.pure, Except.map, Except.ok.injEq] at h
+    obtain ⟨g1, x1⟩ := r
+    simp only [ho, bind, Except.bind] at h
+    by_cases hs : sameLayers g.layers g1.layers = true
+    · simp only [hs, Bool.not_true, Bool.false_eq_true, if_false, pure, Except.pure, Except.ok.injEq, Prod.mk.injEq] at h
+      exact ⟨g1, by rw [h.2], hs, h.1.symm⟩
+    · have hs' : sameLayers g.layers g1.layers = false := by simpa using hs
+      simp [hs', throw, throwThe, MonadExceptOf.throw] at h
+
+/-- the ordering phase of the composed model keeps the node table -/
+theorem statEq_orderWMedianP (maxiter : Nat) (g g' : G) (h : (orderWMedianP maxiter g).map (·.1) = .ok g') : StatEq g g' := by
+  cases hp : orderWMedianP maxiter g with
+  | error e => simp [hp, Except.map] at h
+  | ok r =>
+    obtain ⟨g2, x⟩ := r
+    simp only [hp, Except.map, Except.ok.injEq] at h
     subst h
+    obtain ⟨g1, _, _, rfl⟩ := orderWMedianP_ok maxiter g g2 x hp
     refine ⟨by simp, fun i hi => ?_, fun i h1 h2 => by simp at h2; omega⟩
     simp [G.node, Array.getD_eq_getD_getElem?, hi, Node.stat]
 
